@@ -7,6 +7,10 @@ from contracts.index import PROPS
 
 TECH = "contract-based deductive verification: sidecar contracts on the real functions, VCs generated from /repo's AST by symbolic execution, discharged by z3/cvc5; bounded run-time contract checks reported separately"
 TEXT = {
+ "C01": ("other", "Contracts on all 2 sign, 13 binary, 1 negation and 10 function operator methods (refinement of one configuration step of the documented machine for every kind of adjacent tokens), on Tokens.operate (all token sequences up to length 4-5 over the step's alphabet) and on ExpressionSolver.solve for ~1300 token sequences of the stratified grammar (every operator pair, every sign pattern, functions, nesting, 0-2 blanks) with atoms standing for ARBITRARY reals: the value returned equals the value of the reference AST built from the documented precedence table for all values (z3). Default operator/step tables equal the tables parsed from docs/source/solver/index.rst; symbol table prefix-safe. Ill-formed strings raise. Structure is enumerated, hence reported as bounded_structure (level other).",
+         "expression shapes enumerated up to a bound (values symbolic); tokenizer and parenthesis scanner run on concrete strings; transcendental functions uninterpreted"),
+ "C02": ("other", "solve() verified from DIRTY instances: the token buffers at entry hold arbitrary leftover tokens (8 patterns, symbolic values) and the outcome (value for all atom values, or error) must be the reference outcome, i.e. what a fresh instance returns; constructor establishes empty buffers; nested solvers are fresh objects (interpreted). Bounded stand-in: random histories of 2-5 solves incl. failures at different points on default / custom-atom / operator-subset / custom-step instances against fresh instances.",
+         "expression shapes and leftover patterns enumerated (values symbolic)"),
  "C03": ("proof", "Fraction, Dimensions and Atom product/quotient proved for ALL integer exponents and magnitudes (exact rational value, component-wise dimension sums, exponent sums/differences with fresh result dicts). The parser itself (AtomParser, UnitSolver, BaseUnits.__init__, get_unit_base) is executed by the interpreter on every expression of an enumerated grammar (every table symbol x admitted prefixes incl. 'da' x exponent shapes, 20 compound expressions with numeric factors and parentheses, render/parse round trip, 28 ill-formed strings) against factor and dimension vector computed from the table rows -- reported as bounded_structure. Uniqueness of prefixed spellings by complete evaluation of the real check on the real tables. Bounded stand-in: random expressions over the whole grammar and single-character corruptions on the real classes.",
          "regexes of AtomParser run in CPython on concrete strings only (no all-strings proof of the parser); tables read from settings.py on every run"),
  "C04": ("proof", "For every enumerated pair of units of the published tables (all same-dimension pairs in the thorough tier, a seeded sample in quick) and for ALL values x: value()/to() return x*f(u)/f(v) with f read independently from the table rows, reciprocal-dimension pairs convert by the reciprocal, number->rad is unchanged, other pairs raise and leave the quantity unchanged, value() writes nothing, to() writes only self.magnitude/self.baseunits; round trip / intermediate-unit / reciprocal-twice as real-arithmetic lemmas. Bounded stand-in: float rounding (8 ulp), arrays, lists, Decimal, repeated read-outs.",
